@@ -3,8 +3,8 @@
     panic-site table, and the corollaries for the stages other properties model (C11 schema extensions, C13
     imports, C12 runtime documents / loader, C10 schema declarations). *)
 From V Require Import Base.Util Gql.Ast Peg.Peg Gen.C07_grammar_gen C07.Builder C07.Model.
-From V Require Import C08.Model C08.Spec C08.SiteType Gen.C08_sites_gen C08.Sites C08.ProofsRender C08.ProofsEscape C08.Proofs.
-From V Require C03.Properties C11.Properties C12.Properties C13.Properties.
+From V Require Import C08.Model C08.Spec C08.SiteType Gen.C08_sites_gen C08.Sites C08.ProofsRender C08.ProofsEscape C08.Shape C08.ProofsShape C08.ProofsMerge C08.Proofs.
+From V Require C03.Properties C07.Fuel C11.Properties C12.Properties C13.Properties.
 Local Open Scope N_scope.
 
 (** *** diagnostic rendering *)
@@ -45,6 +45,45 @@ Theorem C08_escape_total_refuted :
   parse_class true w_description = 10 + P_char.
 Proof. exact escape_total_refuted. Qed.
 Print Assumptions C08_escape_total_refuted.
+
+(** *** the builder on pest's pair trees: for EVERY operation text, the only panics the parser model can
+    produce are the two value-level ones of string escapes -- none of the parts!/only_child/all_children/
+    "Unexpected rule"/split_at/operation-type/escape-sequence panics, and never "Empty document" *)
+Theorem C08_builder_shapes_ok : forall inp file k,
+  parse_operation_document file inp = PPanic k -> k = P_char \/ k = P_radix.
+Proof. exact builder_shapes_ok. Qed.
+Print Assumptions C08_builder_shapes_ok.
+
+Theorem C08_builder_shapes_ok_ts : forall inp file k,
+  parse_type_system_document file inp = PPanic k -> k = P_char \/ k = P_radix.
+Proof. exact builder_shapes_ok_ts. Qed.
+Print Assumptions C08_builder_shapes_ok_ts.
+
+(** the parse stage as a whole (with C07's fuel-sufficiency theorem): a document, a ParseError, or one of
+    the two escape panics -- the model never runs out of fuel, i.e. parsing terminates *)
+Theorem C08_parse_total : forall file inp,
+  ((exists d, parse_operation_document file inp = POk d) \/ parse_operation_document file inp = PErr \/
+   parse_operation_document file inp = PPanic P_char \/ parse_operation_document file inp = PPanic P_radix) /\
+  ((exists d, parse_type_system_document file inp = POk d) \/ parse_type_system_document file inp = PErr \/
+   parse_type_system_document file inp = PPanic P_char \/ parse_type_system_document file inp = PPanic P_radix).
+Proof.
+  intros file inp. split.
+  - pose proof (C07.Fuel.parse_operation_document_never_fuel file inp) as Hf.
+    pose proof (builder_shapes_ok inp file) as Hs.
+    destruct (parse_operation_document file inp) as [d| |k|]; [left; eexists; reflexivity|right; left; reflexivity| |congruence].
+    destruct (Hs k eq_refl) as [->| ->]; [right; right; left|right; right; right]; reflexivity.
+  - pose proof (C07.Fuel.parse_type_system_document_never_fuel file inp) as Hf.
+    pose proof (builder_shapes_ok_ts inp file) as Hs.
+    destruct (parse_type_system_document file inp) as [d| |k|]; [left; eexists; reflexivity|right; left; reflexivity| |congruence].
+    destruct (Hs k eq_refl) as [->| ->]; [right; right; left|right; right; right]; reflexivity.
+Qed.
+Print Assumptions C08_parse_total.
+
+(** what a successful run of the PEG interpreter can produce (any grammar): the generic lemma behind it *)
+Theorem C08_parse_forest_generated : forall (R : Type) (g : grammar R) inp fuel start ps,
+  parse_with g fuel start inp = Ok ps -> exists t, gent g inp true ANon (Call start) t ps.
+Proof. intros R g inp fuel start ps. apply parse_gent. Qed.
+Print Assumptions C08_parse_forest_generated.
 
 (** *** panic sites *)
 Theorem C08_all_sites_accounted : forallb accounted scanned_sites = true.
@@ -111,3 +150,12 @@ Theorem C08_check_then_generate_refuted :
 Proof. exact C03.Properties.C03_unspread_fragment_refuted. Qed.
 Print Assumptions C08_check_then_generate_refuted.
 
+
+(** check does not implement Field Selection Merging: it accepts two selections with one response key and
+    different shapes, on which the type printer's deep merge panics (parser, checker and printer models
+    evaluated on the witness texts) *)
+Theorem C08_merge_unchecked_refuted :
+  check_then_tree w_merge_schema w_merge_fields = Some ([], Some (C01.Model.Err C01.Model.EMergeFields)) /\
+  check_then_tree w_merge_schema w_merge_trees = Some ([], Some (C01.Model.Err C01.Model.EMergeTrees)).
+Proof. exact merge_unchecked_refuted. Qed.
+Print Assumptions C08_merge_unchecked_refuted.
